@@ -8,8 +8,11 @@ import OpcuaModel.Model.Recv
   of `Receive` (`Recv.step`).
 
   Crypto is an oracle carried by the frame: on a secured channel a frame either
-  was produced by the reference sealer (`opens = some chunk`: it verifies and
-  opens to that chunk) or it does not verify; for an OPN frame that names a
+  was produced by the reference sealer (`opens = some p`: the signature verifies
+  and `p` is the decrypted plaintext between the security header and the
+  signature — sequence header, body and, under SignAndEncrypt, the padding with
+  its size byte, which the sealer may have filled with hostile values) or it
+  does not verify; for an OPN frame that names a
   policy other than None the verdict of x509 / uapolicy about (policy URI,
   certificate) is `cert`, and since the runners never send a correctly
   encrypted OPN the asymmetric verification fails.  Everything else — framing
@@ -35,7 +38,7 @@ inductive CertClass where
 
 structure Frame where
   raw : Bytes
-  opens : Option Chunk := none
+  opens : Option Bytes := none
   cert : CertClass := .ok
   deriving Repr, DecidableEq
 
@@ -75,6 +78,8 @@ structure RawCfg where
   limits : Cfg
   /-- `cfg.SecurityMode != None` (an open Sign / SignAndEncrypt channel) -/
   secure : Bool
+  /-- `cfg.SecurityMode == SignAndEncrypt` -/
+  encrypt : Bool := false
   deriving Repr, DecidableEq
 
 structure RawSt where
@@ -126,6 +131,21 @@ def finish (cfg : RawCfg) (st : RawSt) (ct : Nat) (data : Bytes) : RawSt × RawO
   let c : Chunk := ⟨ct, leVal (data.take 4), leVal ((data.drop 4).take 4), data.drop 8⟩
   ({ st with bufs := (step cfg.limits st.bufs c).1 }, .out (step cfg.limits st.bufs c).2)
 
+/-- `channelInstance.verifyAndDecrypt` after the signature has verified: `p` is
+    the decrypted plaintext between the security header and the signature -/
+def verified (cfg : RawCfg) (st : RawSt) (ct : Nat) (p : Bytes) : RawSt × RawOut :=
+  if st.clobbered then (st, .err .security) else
+  if cfg.encrypt then
+    -- paddingLength = int(messageToVerify[len-1]) + 1;
+    -- if paddingLength > len(messageToVerify)-headerLength { BadSecurityChecksFailed }  (C09 repair)
+    -- b = messageToVerify[headerLength : len(messageToVerify)-paddingLength]
+    match p.getLast? with
+    | none => (st, .err .security)
+    | some x =>
+      if x.toNat + 1 > p.length then (st, .err .security)
+      else finish cfg st ct (p.take (p.length - (x.toNat + 1)))
+  else finish cfg st ct p
+
 /-- one frame through `Conn.Receive`, `readChunk` and the loop body of `Receive` -/
 def rawStep (cfg : RawCfg) (st : RawSt) (f : Frame) : RawSt × RawOut :=
   let b := f.raw
@@ -161,9 +181,7 @@ def rawStep (cfg : RawCfg) (st : RawSt) (f : Frame) : RawSt × RawOut :=
     if ¬ chan ∈ st.chans then (st, .err .noInstance) else
     if cfg.secure then
       match f.opens with
-      | some c =>
-        if st.clobbered then (st, .err .security) else
-        ({ st with bufs := (step cfg.limits st.bufs c).1 }, .out (step cfg.limits st.bufs c).2)
+      | some p => verified cfg st ct p
       | none => (st, .err .security)
     else finish cfg st ct (b.drop 16)
   else (st, .err .decodeChunk)
